@@ -32,6 +32,8 @@ module Pos :
 
   val iter : ('a1 -> 'a1) -> 'a1 -> positive -> 'a1
 
+  val pow : positive -> positive -> positive
+
   val size : positive -> positive
 
   val compare_cont : comparison -> positive -> positive -> comparison
@@ -43,6 +45,8 @@ module Pos :
   val coq_Nsucc_double : coq_N -> coq_N
 
   val coq_Ndouble : coq_N -> coq_N
+
+  val coq_lor : positive -> positive -> positive
 
   val coq_land : positive -> positive -> coq_N
 
